@@ -31,6 +31,9 @@ type harnessSpec struct {
 	Threads bool                      `json:"threads"`
 	NoNative bool                     `json:"no_native"` // the native build cannot be forced onto the model (wall clock): engine-side replay only
 	Note    string                    `json:"note"`
+	// Rotate: per parameter a list of values; in the quick tier the value is picked by VERIF_SEED
+	// (a different subset of column kinds on every run with a different seed)
+	Rotate map[string][]int `json:"rotate"`
 }
 
 type propSpec struct {
@@ -237,6 +240,22 @@ func (n *native) raceConfirm(pkg, file, key string, runs int) (bool, string) {
 	return false, fmt.Sprintf("not observed under go test -race in %d runs (%d other reports)", runs, len(blocks)-1)
 }
 
+// forced replays a schedule counterexample natively (forced schedule, best effort) and says how it
+// went.
+func (n *native) forced(pkg, file string) string {
+	res, err := n.run(pkg, []string{file}, 2*time.Minute)
+	if err != nil || res[file] == nil {
+		return "native forced-schedule replay could not run"
+	}
+	r := res[file]
+	switch {
+	case r.Failed != "" || r.Panic != "":
+		return "reproduced natively under the forced schedule"
+	default:
+		return "not reproduced natively under the forced schedule (best effort)"
+	}
+}
+
 type replayResult struct {
 	Obs      []string
 	Failed   string // assertion message
@@ -245,6 +264,7 @@ type replayResult struct {
 	Error    string
 	Assume   bool
 	TimedOut bool
+	Desync   bool
 }
 
 func (n *native) run(pkg string, files []string, timeout time.Duration) (map[string]*replayResult, error) {
@@ -288,6 +308,8 @@ func (n *native) run(pkg string, files []string, timeout time.Duration) (map[str
 			cur.Assume = true
 		case strings.HasPrefix(line, "VERIF-DEADLOCK"):
 			cur.Panic = line
+		case strings.HasPrefix(line, "VERIF-DESYNC"):
+			cur.Desync = true
 		}
 	}
 	// a run that died (timeout, fatal error) leaves an unterminated record
@@ -315,6 +337,7 @@ type replayFile struct {
 	Params   map[string]int      `json:"params"`
 	Inputs   map[string][]uint64 `json:"inputs"`
 	Schedule []int               `json:"schedule"`
+	Sched    [][3]int            `json:"sched,omitempty"`
 	Expect   map[string]any      `json:"expect"`
 }
 
@@ -462,6 +485,13 @@ func runProperty(prop string, ps *propSpec, opt options) int {
 		for k, v := range hs.Params[opt.tier] {
 			params[k] = v
 		}
+		if opt.tier == "quick" && opt.seed != 0 {
+			for k, vals := range hs.Rotate {
+				if len(vals) > 0 {
+					params[k] = vals[int(uint64(opt.seed)%uint64(len(vals)))]
+				}
+			}
+		}
 		for k, v := range opt.params {
 			params[k] = v
 		}
@@ -513,7 +543,7 @@ func runProperty(prop string, ps *propSpec, opt options) int {
 		for i, w := range h.Witnesses {
 			p := filepath.Join(repDir, fmt.Sprintf("%s-witness-%02d.json", tag, i))
 			writeJSON(p, replayFile{Property: prop, Harness: hs.Name, Pkg: hs.Pkg, Tier: opt.tier, Kind: "witness", Params: w.Params,
-				Inputs: w.Inputs, Schedule: w.Schedule, Expect: map[string]any{"observe": w.Observes}})
+				Inputs: w.Inputs, Schedule: w.Schedule, Sched: w.Sched, Expect: map[string]any{"observe": w.Observes}})
 			files = append(files, p)
 			wfiles[p] = w
 		}
@@ -528,7 +558,7 @@ func runProperty(prop string, ps *propSpec, opt options) int {
 			}
 			p := filepath.Join(repDir, fmt.Sprintf("%s-violation-%02d.json", tag, len(vfiles)))
 			writeJSON(p, replayFile{Property: prop, Harness: hs.Name, Pkg: hs.Pkg, Tier: opt.tier, Kind: "violation", Params: v.Params,
-				Inputs: v.Inputs, Schedule: v.Schedule, Expect: map[string]any{"kind": v.Kind, "message": v.Msg, "site": v.Site, "known": v.Known}})
+				Inputs: v.Inputs, Schedule: v.Schedule, Sched: v.Sched, Expect: map[string]any{"kind": v.Kind, "message": v.Msg, "site": v.Site, "known": v.Known}})
 			files = append(files, p)
 			vfiles[p] = v
 		}
@@ -582,15 +612,48 @@ func runProperty(prop string, ps *propSpec, opt options) int {
 						for _, k := range v.Known {
 							if !knownPrinted[k] {
 								knownPrinted[k] = true
-								knownLines = append(knownLines, fmt.Sprintf("KNOWN-FINDING: property=%s kf=%s %s (witness %s)", prop, k, activeKF[k].text, p))
+								extra := ""
+								if hs.Threads && v.Kind != "race" {
+									extra = "; " + nat.forced(hs.Pkg, p)
+								}
+								knownLines = append(knownLines, fmt.Sprintf("KNOWN-FINDING: property=%s kf=%s %s (witness %s%s)", prop, k, activeKF[k].text, p, extra))
 							}
 						}
 						continue
 					}
 				}
+				how := "engine-side replay"
+				if hs.Threads && v.Kind != "race" {
+					how = "engine-side replay; " + nat.forced(hs.Pkg, p)
+				}
 				violationLines = append(violationLines, fmt.Sprintf("VIOLATION property=%s replay=%s", prop, p))
-				fmt.Printf("  violation (engine-side replay; no native forcing of this run): %s\n", desc)
+				fmt.Printf("  violation (%s): %s\n", how, desc)
 				ev.Violations++
+			}
+			if hs.Threads && !opt.noNat {
+				var wf []string
+				for p := range wfiles {
+					wf = append(wf, p)
+				}
+				sort.Strings(wf)
+				if results, err := nat.run(hs.Pkg, wf, 5*time.Minute); err == nil {
+					for _, p := range wf {
+						r, w := results[p], wfiles[p]
+						if r == nil || r.Desync || r.TimedOut {
+							continue // the native run left the forced schedule: not comparable
+						}
+						var exp []string
+						for _, o := range w.Observes {
+							exp = append(exp, fmt.Sprintf("%s %s %s", o.Label, o.Kind, o.Val))
+						}
+						if r.Failed != "" || r.Panic != "" || strings.Join(exp, "\n") != strings.Join(r.Obs, "\n") {
+							problems = append(problems, fmt.Sprintf("translator validation (forced schedule): witness %s differs natively: assert=%q panic=%q engine=%v native=%v", p, r.Failed, r.Panic, exp, r.Obs))
+							continue
+						}
+						hev.Validated++
+						os.Remove(p)
+					}
+				}
 			}
 			for i, w := range h.Witnesses {
 				if i >= 2 {
